@@ -32,7 +32,7 @@ type c13L struct {
 
 func init() {
 	steps := []string{"sessionless", "discovery", "open", "rakp1", "rakp3", "insession", "close", "sdr-info", "sdr-reserve", "sdr-get1", "sdr-get2", "sdr-get3", "sdr-get4", "sdr-final", "wrongpw", "close2"}
-	faults := []string{"blackhole", "late", "garbage", "tempcode", "trunc", "ffrun", "drop-once", "repo-modified"}
+	faults := []string{"blackhole", "late", "garbage", "tempcode", "trunc", "ffrun", "drop-once", "repo-modified", "runts", "close-inflight"}
 	register(&Check{
 		ID:      "C13",
 		Level:   "fault_enumeration",
@@ -195,6 +195,7 @@ func c13UDP(run *ev.Run, p c13P, cs ev.Case) (string, func()) {
 	getCount := 0
 	validSent := 0
 	dropped := 0
+	closing := false
 	if p.Fault == "repo-modified" {
 		// no reply is lost or damaged: the repository's addition timestamp moves during the walk
 		want := int(p.Step[len(p.Step)-1] - '0')
@@ -240,6 +241,21 @@ func c13UDP(run *ev.Run, p c13P, cs ev.Case) (string, func()) {
 			return [][]byte{rbytes(r, 1+r.Intn(60))}, 0
 		case "ffrun":
 			return [][]byte{c13FFRun(b, r)}, 0
+		case "runts":
+			// no answer, but datagrams too short to be anything (0..3 bytes) keep arriving
+			var runts [][]byte
+			for i := 0; i < 60; i++ {
+				runts = append(runts, rbytes(r, r.Intn(4)))
+			}
+			srv.Trickle(runts, time.Duration(20+r.Intn(60))*time.Millisecond)
+			return nil, 0
+		case "close-inflight":
+			// no answer; the caller (another goroutine) closes the connection while the call waits
+			if !closing {
+				closing = true
+				time.AfterFunc(time.Duration(p.Deadline/3+20)*time.Millisecond, func() { st.Close() })
+			}
+			return nil, 0
 		case "trunc":
 			if len(reply) > 4 {
 				return [][]byte{reply[:len(reply)/2]}, 0
